@@ -15,7 +15,8 @@ LEVEL_TEXT = ("Proof + correspondence: Coq theorems that TrueType pre-processing
               "(flatten on/off, convertCubics on/off, both UFO libraries), and the resolve-based spec is evaluated in Coq on the "
               "implementation's output. maxp counts/depth are recomputed from the reloaded glyf data. PARTIAL for cubic "
               "sources: the cu2qu spline search is environment; the distance between source cubic and emitted spline is "
-              "sampled against cubicConversionError*upem (+ rounding slack) -- a test, not a proof.")
+              "sampled against cubicConversionError*upem (+ rounding slack) -- a test, not a proof."
+              " The list of default filters of the TrueType pre-processor is translated from /repo's current TTFPreProcessor.initDefaultFilters into Gallina on every run (Generated/Pipelines.v, fail-closed) and proved, for all option values: the direction is reversed exactly when reverseDirection is on and at most once, the converter gets the caller's allQuadratic / reverseDirection and remembers the curve type only inplace, only mixed glyphs are decomposed, flattening / overlap removal run exactly when asked; compared with the real pre-processor objects over all 1024 option combinations.")
 LEVEL_NOTE = ("Trusted: Coq kernel; hand model of fontTools pens/TTGlyphPointPen (correspondence-tested); exact rationals on dyadic "
               "inputs; cu2qu, glyf compile, maxp.recalc are environment. Component matrices outside F2Dot14 are excluded.")
 TECHNIQUE = "Coq proofs (no mixed glyph, decomposition = resolution, flatten algebra) + vm_compute correspondence on glyph sets and glyf tables; sampled distance test for cubics"
@@ -567,6 +568,8 @@ def notdef_section(ctx, rng):
 
 
 def explore(ctx):
+    from harness.pipeline_check import pipeline_section
+    pipeline_section(ctx, "ttf")
     notdef_section(ctx, ctx.subrng("notdef"))
     tt_options_section(ctx, ctx.subrng("tt-options"))
     direction_section(ctx, ctx.subrng("direction"))
